@@ -195,3 +195,14 @@ Theorem C01_the_oracle_accepts_the_model_on_bookkeeping : forall cfg d qs st sst
   | None => True
   end.
 Proof. exact bookkeeping_steps_accepted. Qed.
+
+(** ... and on probes presented to one archetype, including a handle carrying another archetype's id
+    (absence on every path, C03). *)
+Theorem C01_the_oracle_accepts_the_model_on_archetype_probes : forall cfg d qs st sst w sw i e a0 b bd s x, RInv d st ->
+  cur_world st = Some w -> issued st !! i = Some e -> snd e <> 0%N -> key32 e ->
+  wd_archs d !! b = Some bd -> w !! b = Some s -> (da_id bd = key_arch_id (fst e) -> eslot e < cap s) ->
+  cur_sworld sst = Some sw -> s_issued sst !! i = Some (e, a0) -> sw !! b = Some x ->
+  (da_id bd = key_arch_id (fst e) -> belief_true s x e) ->
+  exists obs, step cfg d qs st (OProbe (LArch b) KEnt TAny (RIssued i)) = Some (st, obs) /\
+              spec_step cfg d qs sst (OProbe (LArch b) KEnt TAny (RIssued i)) obs = inr sst.
+Proof. exact probe_arch_oracle_accepts. Qed.
